@@ -10,7 +10,9 @@
 // peer that completes the handshake, answers keep-alives, waits for the requests
 // of the call under test and plays the script (correct / wrong-kind / forbidden /
 // surplus replies, malformed bytes, truncated segments, stalls, segments the muxer
-// rejects, close). The driver plays the user of ClientApi.tla: it closes the
+// rejects, close, and "tmo": silence until the state timeout of the state the
+// protocol waits in - scaled down to 120..300 ms through the public option the
+// table names for that stage - has fired). The driver plays the user of ClientApi.tla: it closes the
 // connection once the script is played and the call has returned or the library
 // has come to rest, starts reading ErrorChan when Close has returned, makes one
 // more call of the same API, and then compares, aspect by aspect, with the set of
@@ -42,10 +44,12 @@ import (
 	"sort"
 	"strconv"
 	"strings"
+	"sync"
 	"time"
 
 	ouroboros "github.com/blinklabs-io/gouroboros"
 	"github.com/blinklabs-io/gouroboros/ledger"
+	"github.com/blinklabs-io/gouroboros/protocol"
 	"github.com/blinklabs-io/gouroboros/protocol/blockfetch"
 	"github.com/blinklabs-io/gouroboros/protocol/chainsync"
 	pcommon "github.com/blinklabs-io/gouroboros/protocol/common"
@@ -74,6 +78,9 @@ type stage struct {
 	Bg      bool    `json:"bg"`
 	Forbid  string  `json:"forbid"`
 	Replies []reply `json:"replies"`
+	Timed   bool    `json:"timed"`    // the state waited in has a state timeout
+	TmOpt   string  `json:"tmopt"`    // the Config field it is taken from (scaled through that field's option), or
+	TmFixed bool    `json:"tmofixed"` // the name of the package constant if there is no option
 }
 
 type apiRow struct {
@@ -95,6 +102,7 @@ type prediction struct {
 	Safe      []bool     `json:"safe"`
 	Alive     [][]string `json:"alive"`
 	Played    []int      `json:"played"`
+	Tmo       []bool     `json:"tmo"` // the state timeout fired (information: an error may come first)
 }
 
 type caseRow struct {
@@ -137,6 +145,7 @@ type observation struct {
 	Played    int      `json:"played"`
 	Notes     []string `json:"notes"`
 	Ms        int64    `json:"ms"`
+	Timeout   string   `json:"state_timeout,omitempty"` // tmo scripts: the state whose timeout fired
 }
 
 type callResult struct {
@@ -154,6 +163,10 @@ type caseRun struct {
 	obs    observation
 	peer   *rawPeer
 	needle string
+	// scripts that end in tmo: the option that is scaled down, and what the engine's trace hook saw
+	shortOpt string // "<proto>.<Config field>"
+	shortDur time.Duration
+	tmo      *tmoWatch
 }
 
 func (r *caseRun) note(format string, a ...any) {
@@ -164,12 +177,21 @@ var quiet = slog.New(slog.NewTextHandler(io.Discard, nil))
 
 const longTimeout = 10 * time.Minute // state timeouts (C14's subject) are kept out of the way
 
+// d: the value of the timeout option `field` of protocol `proto` for this case: out of the way, except the one the
+// script's tmo step waits for
+func (r *caseRun) d(proto, field string) time.Duration {
+	if r.shortOpt == proto+"."+field {
+		return r.shortDur
+	}
+	return longTimeout
+}
+
 func (r *caseRun) options(a net_Conn, errCh chan error) []ouroboros.ConnectionOptionFunc {
 	bfCfg, err := blockfetch.NewConfig(
 		blockfetch.WithBlockFunc(func(blockfetch.CallbackContext, uint, ledger.Block) error { return nil }),
 		blockfetch.WithBatchDoneFunc(func(blockfetch.CallbackContext) error { return nil }),
-		blockfetch.WithBatchStartTimeout(longTimeout),
-		blockfetch.WithBlockTimeout(longTimeout),
+		blockfetch.WithBatchStartTimeout(r.d("blockfetch", "BatchStartTimeout")),
+		blockfetch.WithBlockTimeout(r.d("blockfetch", "BlockTimeout")),
 	)
 	if err != nil {
 		panic(err)
@@ -177,8 +199,8 @@ func (r *caseRun) options(a net_Conn, errCh chan error) []ouroboros.ConnectionOp
 	csCfg := chainsync.NewConfig(
 		chainsync.WithRollForwardFunc(func(chainsync.CallbackContext, uint, any, chainsync.Tip) error { return nil }),
 		chainsync.WithRollBackwardFunc(func(chainsync.CallbackContext, pcommon.Point, chainsync.Tip) error { return nil }),
-		chainsync.WithIntersectTimeout(longTimeout),
-		chainsync.WithBlockTimeout(longTimeout),
+		chainsync.WithIntersectTimeout(r.d("chainsync", "IntersectTimeout")),
+		chainsync.WithBlockTimeout(r.d("chainsync", "BlockTimeout")),
 	)
 	txCfg := txsubmission.NewConfig(
 		txsubmission.WithInitFunc(func(txsubmission.CallbackContext) error { return nil }),
@@ -199,12 +221,15 @@ func (r *caseRun) options(a net_Conn, errCh chan error) []ouroboros.ConnectionOp
 		ouroboros.WithChainSyncConfig(csCfg),
 		ouroboros.WithTxSubmissionConfig(txCfg),
 		ouroboros.WithKeepAliveConfig(keepalive.NewConfig(keepalive.WithPeriod(longTimeout), keepalive.WithTimeout(longTimeout))),
-		ouroboros.WithPeerSharingConfig(peersharing.NewConfig(peersharing.WithTimeout(longTimeout))),
-		ouroboros.WithLocalTxSubmissionConfig(localtxsubmission.NewConfig(localtxsubmission.WithTimeout(longTimeout))),
+		ouroboros.WithPeerSharingConfig(peersharing.NewConfig(peersharing.WithTimeout(r.d("peersharing", "Timeout")))),
+		ouroboros.WithLocalTxSubmissionConfig(localtxsubmission.NewConfig(
+			localtxsubmission.WithTimeout(r.d("localtxsubmission", "Timeout")))),
 		ouroboros.WithLocalTxMonitorConfig(localtxmonitor.NewConfig(
-			localtxmonitor.WithAcquireTimeout(longTimeout), localtxmonitor.WithQueryTimeout(longTimeout))),
+			localtxmonitor.WithAcquireTimeout(r.d("localtxmonitor", "AcquireTimeout")),
+			localtxmonitor.WithQueryTimeout(r.d("localtxmonitor", "QueryTimeout")))),
 		ouroboros.WithLocalStateQueryConfig(localstatequery.NewConfig(
-			localstatequery.WithAcquireTimeout(longTimeout), localstatequery.WithQueryTimeout(longTimeout))),
+			localstatequery.WithAcquireTimeout(r.d("localstatequery", "AcquireTimeout")),
+			localstatequery.WithQueryTimeout(r.d("localstatequery", "QueryTimeout")))),
 	}
 	switch r.api.Conn {
 	case "ntn":
@@ -215,6 +240,15 @@ func (r *caseRun) options(a net_Conn, errCh chan error) []ouroboros.ConnectionOp
 		opts = append(opts, ouroboros.WithServer(true))
 	}
 	return opts
+}
+
+// the timeout options the driver can scale (the table's stage.tmopt must be one of them)
+var scalable = map[string]bool{
+	"blockfetch.BatchStartTimeout": true, "blockfetch.BlockTimeout": true,
+	"chainsync.IntersectTimeout": true, "chainsync.BlockTimeout": true,
+	"peersharing.Timeout": true, "localtxsubmission.Timeout": true,
+	"localtxmonitor.AcquireTimeout": true, "localtxmonitor.QueryTimeout": true,
+	"localstatequery.AcquireTimeout": true, "localstatequery.QueryTimeout": true,
 }
 
 var magics = []uint32{764824073, 1, 2, 42, 0xffffffff, 3141592}
@@ -386,7 +420,7 @@ func (r *caseRun) playScript(b net_Conn) string {
 		return p.write(p.pid, m)
 	}
 	for i, x := range r.c.Script {
-		answering := x == "ok" || x == "w1" || x == "w2" || x == "forbid" || x == "garbage" || x == "trunc"
+		answering := x == "ok" || x == "w1" || x == "w2" || x == "forbid" || x == "garbage" || x == "trunc" || x == "tmo"
 		if answering {
 			if pk > n {
 				return fmt.Sprintf("step %d (%s): no stage left to answer", i+1, x)
@@ -437,6 +471,11 @@ func (r *caseRun) playScript(b net_Conn) string {
 			}
 		case "stall":
 			p.stalled.Store(true)
+		case "tmo":
+			// nothing is written: the step is played when the timeout of the state the protocol waits in has fired
+			if why := r.awaitStateTimeout(&st[pk-1]); why != "" {
+				return fmt.Sprintf("step %d (tmo): %s", i+1, why)
+			}
 		case "muxerr":
 			switch (r.seed >> 32) % 3 {
 			case 0:
@@ -468,6 +507,124 @@ func (r *caseRun) playScript(b net_Conn) string {
 	return ""
 }
 
+// ---- scripts that end in tmo
+
+// tmoWatch is fed by the engine's trace hook (protocol.VerifTracer) with the events of the protocol under test
+type tmoWatch struct {
+	pid     uint16
+	mu      sync.Mutex
+	state   string // state whose timeout fired
+	armed   []string
+	fired   chan struct{}
+	stopped chan struct{}
+}
+
+func newTmoWatch(pid uint16) *tmoWatch {
+	return &tmoWatch{pid: pid, fired: make(chan struct{}), stopped: make(chan struct{})}
+}
+
+func (w *tmoWatch) event(_ *protocol.Protocol, e protocol.VerifEvent) {
+	if e.Id != w.pid {
+		return
+	}
+	w.mu.Lock()
+	defer w.mu.Unlock()
+	switch e.Ev {
+	case "TimerArm":
+		if len(w.armed) < 8 {
+			w.armed = append(w.armed, fmt.Sprintf("%s=%v", e.S1, time.Duration(e.A)))
+		}
+	case "Timeout":
+		select {
+		case <-w.fired:
+		default:
+			w.state = e.S1
+			close(w.fired)
+		}
+	case "Stop":
+		select {
+		case <-w.stopped:
+		default:
+			close(w.stopped)
+		}
+	}
+}
+
+func endsInTmo(s []string) bool { return len(s) > 0 && s[len(s)-1] == "tmo" }
+
+// tmoStage: the stage the peer is at when it comes to the script's tmo step (0: the script has none)
+func tmoStage(st []stage, script []string) int {
+	pk := 1
+	widx := map[string]int{"ok": 0, "w1": 1, "w2": 2}
+	for _, x := range script {
+		switch x {
+		case "ok", "w1", "w2":
+			if pk > len(st) || widx[x] >= len(st[pk-1].Replies) {
+				return 0
+			}
+			switch st[pk-1].Replies[widx[x]].Eff {
+			case "adv":
+				pk++
+			case "ends":
+				pk = len(st) + 1
+			}
+		case "forbid", "garbage":
+			pk = len(st) + 1
+		case "tmo":
+			if pk > len(st) {
+				return 0
+			}
+			return pk
+		}
+	}
+	return 0
+}
+
+// generous: no upper bound is asserted on when a timeout fires other than this
+const tmoDeadline = 45 * time.Second
+
+// awaitStateTimeout: the silence lasts until the engine reports that the state timer has fired (or that the protocol
+// has stopped for another reason: an error that came first, as in some behaviours of the model).
+func (r *caseRun) awaitStateTimeout(st *stage) string {
+	w := r.tmo
+	if w == nil || !st.Timed {
+		return "the table does not give this stage a state timeout"
+	}
+	limit := tmoDeadline
+	if st.TmFixed {
+		limit += 30 * time.Second
+	}
+	t0 := time.Now()
+	what := fmt.Sprintf("%s = %v", r.shortOpt, r.shortDur)
+	if st.TmFixed {
+		what = "the fixed " + st.TmOpt
+	}
+	select {
+	case <-w.fired:
+		w.mu.Lock()
+		r.obs.Timeout = w.state
+		w.mu.Unlock()
+		r.note("tmo: the timeout of state %s fired %.0f ms into the silence (%s)", r.obs.Timeout, float64(time.Since(t0).Microseconds())/1000, what)
+	case <-w.stopped:
+		select {
+		case <-w.fired:
+			w.mu.Lock()
+			r.obs.Timeout = w.state
+			w.mu.Unlock()
+			r.note("tmo: the timeout of state %s fired (%s)", r.obs.Timeout, what)
+		case <-time.After(300 * time.Millisecond):
+			r.note("tmo: the protocol stopped before its state timeout fired (%s)", what)
+		}
+	case <-time.After(limit):
+		w.mu.Lock()
+		armed := strings.Join(w.armed, ",")
+		w.mu.Unlock()
+		return fmt.Sprintf("no state timeout fired and the protocol did not stop within %v of silence (%s; timers armed: %s): the case cannot be established (whether timeouts fire is C14's subject)",
+			limit, what, armed)
+	}
+	return ""
+}
+
 func endsByPeer(s []string) bool {
 	return len(s) > 0 && (s[len(s)-1] == "close" || s[len(s)-1] == "muxerr")
 }
@@ -488,6 +645,23 @@ func (r *caseRun) run() (undecided string) {
 	}
 	errCh := make(chan error, capacity)
 	r.note("ErrorChan capacity %d", capacity)
+	if endsInTmo(r.c.Script) {
+		k := tmoStage(r.api.Stages, r.c.Script)
+		if k == 0 || !r.api.Stages[k-1].Timed {
+			return "tmo step at a stage without a state timeout (table and case do not fit)"
+		}
+		st := &r.api.Stages[k-1]
+		if !st.TmFixed {
+			r.shortOpt = r.api.Proto + "." + st.TmOpt
+			if !scalable[r.shortOpt] {
+				return "the driver has no option for " + r.shortOpt
+			}
+			r.shortDur = time.Duration(120+60*((r.seed>>36)%4)) * time.Millisecond
+		}
+		r.tmo = newTmoWatch(r.api.Pid)
+		theHub.set(r.tmo.event, nil)
+		defer theHub.set(nil, nil)
+	}
 
 	connCh := make(chan connResult, 1)
 	go r.connect(r.options(a, errCh), connCh)
@@ -803,6 +977,7 @@ func main() {
 		return
 	}
 	rep := vh.NewReporter()
+	installTracers()
 	if len(os.Args) < 4 || os.Args[1] != "run" {
 		rep.Dead("usage: c15 extract <repo> <hand.json> | c15 run <table.json> <rows.ndjson> | c15 life <rows.ndjson>")
 	}
@@ -832,7 +1007,7 @@ func main() {
 		rep.Dead("fixture block: %v", err)
 	}
 	seed := vh.Seed()
-	hangsSeen, maxMs, leaks := 0, int64(0), 0
+	hangsSeen, maxMs, leaks, tmoCases, tmoFired := 0, int64(0), 0, 0, 0
 	byObs := map[string]int{}
 	for i := range rows {
 		c := &rows[i]
@@ -879,6 +1054,12 @@ func main() {
 			if len(o.Leak) > 0 {
 				leaks++
 			}
+			if endsInTmo(c.Script) {
+				tmoCases++
+				if o.Timeout != "" {
+					tmoFired++
+				}
+			}
 			if o.Ms > maxMs {
 				maxMs = o.Ms
 			}
@@ -894,6 +1075,8 @@ func main() {
 	}
 	rep.Extra["c15_cases_with_a_hanging_call"] = hangsSeen
 	rep.Extra["c15_cases_with_leftover_goroutines"] = leaks
+	rep.Extra["c15_cases_of_silence_beyond_a_state_timeout"] = tmoCases
+	rep.Extra["c15_cases_where_the_state_timeout_fired"] = tmoFired
 	_ = maxMs
 	for k, n := range byObs {
 		rep.Extra["c15_observed: "+k] = n // numbers, so that the shards add up
